@@ -809,11 +809,19 @@ class C45AbsTriggers(Base):
         if not self.done:
             return
         for t in tasks:
+            # the Prerequisite object (one graph expression) each atom is in
+            gsat = {}
+            for pt, name, out, gi, gs in t.get('prereq_groups', []):
+                gsat.setdefault((pt, name, out), []).append(gs)
             for pt, name, out, sat, _ in t['prereqs']:
                 if (pt, name, out) in self.done:
                     self.n['abs_prereq_checks'] += 1
                     self.n[f'abs_checks_{where}'] += 1
-                    if not sat:
+                    if not sat and all(gsat.get((pt, name, out), [False])):
+                        # the expression holding the atom is satisfied
+                        # anyway (cylc does not mark the atom then)
+                        self.n['abs_atom_unmarked_in_satisfied_expr'] += 1
+                    elif not sat:
                         self.v(f'abs-prerequisite-unsatisfied:{where}',
                                f'{t["id"]} has prerequisite {pt}/{name}:'
                                f'{out} unsatisfied although that output is '
@@ -1299,6 +1307,12 @@ class C29Set(Base):
                 if t['id'] == tid:
                     continue
                 self.n['spawn_checks'] += 1
+                if t['name'] == n and int(t['point']) > p and (
+                        not t['prereqs'] or gt['tasks'][n]['sequential']):
+                    # the next parentless (or sequential) instance of the
+                    # same task: spawned by the pool, not by the graph
+                    self.n['spawned_parentless_successor'] += 1
+                    continue
                 if t['id'] not in kids and len(targets) == 1:
                     self.v('set-spawned-non-child',
                            f'{t["id"]} was added to the pool by cylc set on '
